@@ -58,6 +58,8 @@ def check_case(case, acc):
     from cardutil import pinblock
     if case.get('raw'):
         return check_raw_cipher(case, acc)
+    if case.get('alphabet'):
+        return check_textlike(case, acc)
     pin, pan = make(case)
     fmt = case['fmt']
     key = case.get('key')
@@ -241,6 +243,76 @@ def check_raw_cipher(case, acc):
         acc.viol('c13.cipher.decrypt', case, bytes(back).hex(), clear.hex(), 'ECB decryption of ' + ct.hex())
 
 
+TEXT_ALPHABETS = {'hex': b'0123456789abcdefABCDEF', 'digits': b'0123456789', 'upper': b'ABCDEFGHIJKLMNOPQRSTUVWXYZ',
+                  'blank_digit': b' 0123456789', 'base64': b'ABCDEFabcdef0123456789+/='}
+
+
+def textlike_vector(key_hex, alphabet, k, seed):
+    """the k-th format-0 vector whose 3DES CIPHERTEXT consists only of characters of a text alphabet (hex digits,
+    decimal digits, capitals ...): ciphertexts are enumerated in a fixed order, decrypted with the reference cipher,
+    and a PIN / card number pair is derived for every clear block that can be a format-0 block (the card number's
+    digits are chosen so that the XOR leaves PIN digits and F fill). -> (pin, pan, ciphertext) or None"""
+    kb = bytes.fromhex(key_hex)
+    al = TEXT_ALPHABETS[alphabet]
+    found = 0
+    for t in range(20000):
+        x = (t * 2654435761 + seed * 40503 + 12345) & 0xffffffffffffffff
+        ct = bytes(al[(x >> (8 * i)) % len(al)] for i in range(8))
+        clear = des_ref.tdes_ecb_decrypt(kb, ct)
+        nib = [b >> 4 if i % 2 == 0 else b & 15 for b in clear for i in (0, 1)]
+        if nib[0] != 0 or not 4 <= nib[1] <= 12 or nib[2] > 9 or nib[3] > 9:
+            continue
+        L = nib[1]
+        pin, pan12, ok = [nib[2], nib[3]], [], True
+        for i in range(4, 16):
+            c = nib[i]
+            if i < 2 + L:
+                d = next((d for d in range(10) if (c ^ d) <= 9), None)
+                if d is None:
+                    ok = False
+                    break
+                pin.append(c ^ d)
+            else:
+                d = c ^ 0xF
+                if d > 9:
+                    ok = False
+                    break
+            pan12.append(d)
+        if not ok:
+            continue
+        pin_s = ''.join(map(str, pin))
+        pan_s = '5413' + ''.join(map(str, pan12)) + '7'
+        if pin_ref.iso0_clear(pin_s, pan_s) != clear:
+            continue
+        if found == k:
+            return pin_s, pan_s, ct
+        found += 1
+    return None
+
+
+def check_textlike(case, acc):
+    from cardutil import pinblock
+    v = textlike_vector(case['key'], case['alphabet'], case['k'], case.get('seed', 0))
+    acc.case(('textlike', case['key'], case['alphabet'], case['k']), nontrivial=v is not None,
+             outcome='ciphertext looks like text' if v else 'no vector within the search bound')
+    if v is None:
+        return
+    pin, pan, ct = v
+    cls = pinblock.Iso0TDESPinBlockWithVisaPVV
+    try:
+        got = cls(pin=pin, card_number=pan).to_enc_bytes(key=case['key'])
+        back = cls.from_enc_bytes(enc_pin_block=ct, card_number=pan, key=case['key']).pin
+        back2 = cls.from_enc_bytes(ct, case['key'], card_number=pan).pin
+    except Exception as ex:
+        acc.viol('c13.textlike.exception', case, repr(ex), 'PIN %s' % pin,
+                 'the encrypted block %r (all %s characters) belongs to PIN %s, card %s' % (ct, case['alphabet'], pin, pan))
+        return
+    if got != ct or back != pin or back2 != pin:
+        acc.viol('c13.textlike.value', case, 'encrypted %s, decrypted PIN %s / %s' % (bytes(got).hex(), back, back2),
+                 'encrypted %s, PIN %s' % (ct.hex(), pin), 'an encrypted block whose bytes all are %s characters'
+                 % case['alphabet'])
+
+
 def enumerate_cases(tier, seed):
     cases = []
     for pl in range(4, 13):
@@ -301,6 +373,11 @@ def enumerate_cases(tier, seed):
             cases.append({'raw': True, 'alg': 'tdes', 'key': key, 'ct': pat})
         for key in AES_KEYS:
             cases.append({'raw': True, 'alg': 'aes', 'key': key, 'ct': pat})
+    # encrypted blocks that look like TEXT (hex digits, decimal digits, capitals ...): bytes are bytes
+    for al in sorted(TEXT_ALPHABETS):
+        for key in TDES_KEYS[:2]:
+            for k in range(3 if tier == 'quick' else 8):
+                cases.append({'alphabet': al, 'key': key, 'k': k, 'seed': seed})
     for tail in range(256):          # every value of the last ciphertext byte
         cases.append({'raw': True, 'alg': 'tdes', 'key': TDES_KEYS[0], 'ct': '1122334455667788', 'tail': tail})
         cases.append({'raw': True, 'alg': 'aes', 'key': AES_KEYS[2], 'ct': '11223344556677889900aabbccddeeff',
@@ -310,7 +387,9 @@ def enumerate_cases(tier, seed):
 
 def tasks(tier, seed):
     cs = enumerate_cases(tier, seed)
-    return [{'cases': ch} for ch in core.chunks(cs, 64)]
+    slow = [c for c in cs if c.get('alphabet')]          # each needs a vector search: one task each
+    cs = [c for c in cs if not c.get('alphabet')]
+    return [{'cases': ch} for ch in core.chunks(cs, 64)] + [{'cases': [c]} for c in slow]
 
 
 def fresh_fills(n=3):
